@@ -250,10 +250,11 @@ macro_rules! concrete_run {
 // Concrete runs that PASS are not registered: CBMC reports spurious `__rust_dealloc` failures on them (a dealloc
 // of the Parser's vectors that the native replay does not confirm), and a check that can raise a false alarm is
 // worse than no check.  The witnesses below fail on the rowan contract *before* any deallocation.
-// witnesses of known findings (each must FAIL on the rowan contract while the finding is listed)
-concrete_run!(c01_type_empty, Entry::Type, "", usize::MAX, 500, |o| { assert!(o.errors >= 1); });
-concrete_run!(c01_type_leading_space, Entry::Type, " Int", usize::MAX, 500, |o| { assert!(o.errors == 0); });
-concrete_run!(c01_type_bang, Entry::Type, "!", usize::MAX, 500, |o| { assert!(o.errors >= 1); });
+// regression witnesses of the repaired "no single root" panic of parse_type (fix: commit fab33bc): the rowan
+// contract holds, no panic, and the text is in the tree
+concrete_run!(c01_type_empty, Entry::Type, "", usize::MAX, 500, |o| { assert!(o.errors >= 1 && shadow_text_is(b"")); });
+concrete_run!(c01_type_leading_space, Entry::Type, " Int", usize::MAX, 500, |o| { assert!(o.errors == 0 && shadow_text_is(b" Int")); });
+concrete_run!(c01_type_bang, Entry::Type, "!", usize::MAX, 500, |o| { assert!(o.errors >= 1 && shadow_text_is(b"!")); });
 // C02 witness: a token after `[` inside a type is popped and never attached to the tree
 concrete_run!(c02_type_list_bang_dropped, Entry::Type, "[!", usize::MAX, 500, |o| {
     assert!(o.errors >= 1);
